@@ -2634,6 +2634,13 @@ def has_guard(guards, term: Term) -> bool:
     return term in facts(guards)
 
 
+def not_nil_forms(t: Term) -> List[Term]:
+    """The spellings of `t != NIL` for a value that is a node index or NIL (= -1): t != NIL, t != -1, -1 < t, NIL < t,
+    0 <= t - the same set of values for every t >= -1."""
+    nil = [("K", "NIL"), ("const", -1)]
+    return [mk_cmp("!=", t, n) for n in nil] + [("cmp", "<", n, t) for n in nil] + [("cmp", "<=", ("const", 0), t)]
+
+
 def entry_returns(w: "Walker") -> List[Event]:
     """Return events of the entry function itself (not of helpers inlined into it)."""
     return [e for e in w.events if e.kind == "return" and e.fn is w.entry]
